@@ -15,7 +15,7 @@ import warnings
 from sim import rng
 from sim.base import BaseCheck
 
-VERSIONS = [None, '2.0', '3.0', '2.5', '3.0.0', '1.0', '4.0', '2', '2.0.0', '3']
+VERSIONS = [None, '2.0', '3.0', '2.5', '3.0.0', '1.0', '4.0', '2', '2.0.0', '3', '2.0a', '1.9z']
 V3_KINDS = ['na', 'list', 'dict', 'grid', 'xstr']
 COLS = ['a', 'b']
 
